@@ -88,7 +88,7 @@ def _relaxed_unsat(ob, timeout_s):
         rel = None
     if rel is None:
         return False
-    s3 = z3.Tactic('qfnra-nlsat').solver() if not _has_quantifier(rel) else z3.Solver()
+    s3 = z3.TryFor(z3.Tactic('qfnra-nlsat'), int(timeout_s * 1000)).solver() if not _has_quantifier(rel) else z3.Solver()
     s3.set('timeout', int(timeout_s * 1000))
     s3.add(*rel)
     try:
@@ -136,14 +136,24 @@ def discharge(ob, inputs, timeout_s=30, use_cvc5=True, ufuns=None):
         s.set('timeout', int(timeout_s * 1000))
         r = s.check()
         if r == z3.unknown:
-            s2 = z3.Then('simplify', 'solve-eqs', 'smt').solver()
-            s2.set('timeout', int(timeout_s * 1000))
+            s2 = z3.TryFor(z3.Then('simplify', 'solve-eqs', 'smt'), int(min(timeout_s, 30) * 1000)).solver()
             s2.add(*ob.pc)
             s2.add(z3.Not(ob.formula))
             r2 = s2.check()
             if r2 != z3.unknown:
                 r, s = r2, s2
                 ob.backend = 'z3(simplify,solve-eqs,smt)'
+    if r == z3.sat and not _has_quantifier(list(ob.pc) + [ob.formula]):
+        # never believe an unvalidated `sat`: the model must evaluate the path condition to true and the obligation to false
+        try:
+            m0 = s.model()
+            ok = z3.is_true(m0.eval(z3.And(*ob.pc), model_completion=True)) if ob.pc else True
+            ok = ok and z3.is_false(m0.eval(ob.formula, model_completion=True))
+        except z3.Z3Exception:
+            ok = False
+        if not ok:
+            r = z3.unknown
+            ob.note = (ob.note + ' solver model did not validate (treated as unknown)').strip()
     if r == z3.unknown:
         m = random_refute(ob, inputs)
         if m is not None:
@@ -345,6 +355,7 @@ def relax_to_reals(formulas):
                 a, v = floors[i]
                 b, w = floors[j]
                 extra.append(K.Implies(a <= b, v <= w))
+                extra.append(K.Implies(v < w, v + 1 <= w))          # floors are integers: distinct floors differ by at least one
     return out + extra
 
 
